@@ -9,10 +9,22 @@
 (*              BinLen(v) = Len(BinEnc(v));                                *)
 (*              every strict prefix of a struct encoding is an error.      *)
 (***************************************************************************)
-EXTENDS ThriftUniverse, ThriftBinary, ThriftCompact, TLC, Json, IOUtils
+EXTENDS ThriftUniverse, ThriftBinary, ThriftCompact, ThriftSkip, TLC, Json, IOUtils
 
 Tier == IF "VERIF_TIER" \in DOMAIN IOEnv THEN IOEnv.VERIF_TIER ELSE "quick"
-Trees == IF Tier = "thorough"
+VSet == IF "VERIF_SET" \in DOMAIN IOEnv THEN IOEnv.VERIF_SET ELSE "universe"
+\* exhaustive small integers: all i8; all i16 (thorough) or every 97th plus the extremes (quick)
+I16Range == IF Tier = "thorough" THEN -32768..32767
+            ELSE {n \in -32768..32767 : n % 97 = 0} \cup {-32768, -32767, 32766, 32767, -8193, -8192, 8191, 8192}
+IntTrees == [b \in 1..256 |-> Leaf("i8", <<b - 1>>)] \o SetToSeq({Leaf("i16", FromInt(n, 16)) : n \in I16Range})
+\* nesting depth 1..80 around the skip budget of 64, for structs, lists and maps
+DeepDepths == IF Tier = "thorough" THEN 1..80 ELSE {1, 2, 30, 62, 63, 64, 65, 80}
+DeepTrees == SetToSeq({DeepStruct(d) : d \in DeepDepths}) \o SetToSeq({DeepList(d) : d \in DeepDepths})
+               \o SetToSeq({DeepMap(d) : d \in DeepDepths})
+               \o SetToSeq({Struct(<<Fld(1, Leaf("i8", <<1>>)), Fld(2, DeepStruct(d)), Fld(3, Leaf("bool", <<1>>))>>) : d \in {62, 63, 64}})
+Trees == IF VSet = "ints" THEN IntTrees
+         ELSE IF VSet = "deep" THEN DeepTrees
+         ELSE IF Tier = "thorough"
          THEN QuickTrees \o SetToSeq(FBig) \o <<DeepStruct(12), DeepList(12), DeepMap(12)>>
          ELSE QuickTrees \o <<CHOOSE x \in FBig : x.k = "struct">>
 
@@ -44,7 +56,7 @@ Vec(i) ==
              /\ BinLen(v) = Len(b) /\ Len(bl) = Len(b)
              /\ PrefixesFail(v, b, cs)
   IN IF Assert(thm, <<"oracle theorem fails for vector", i, v>>)
-     THEN [id |-> i, t |-> t, depth |-> Depth(v), v |-> v, bin |-> b, binle |-> bl,
+     THEN [id |-> i, t |-> t, depth |-> Depth(v), need |-> Need(v), v |-> v, bin |-> b, binle |-> bl,
            bint |-> IF bt = b THEN <<>> ELSE bt,
            cs |-> cs, cl |-> IF cl = cs THEN <<>> ELSE cl, cp |-> IF cp = cs THEN <<>> ELSE cp]
      ELSE [id |-> i]
